@@ -186,9 +186,113 @@ fn check_policy_in(kind: PermKind, bits: u32, all_modes: bool, context: u8, acc:
     }
 }
 
+/// Any tree of -perm tests: compiled, run on files of the given modes, selection compared with
+/// the checks' definitions.
+fn check_tree_policy(tree: &Expr, modes: &[u32], family: &str, acc: &mut Acc) {
+    acc.states += 1;
+    acc.transitions += 1;
+    acc.validated += 1;
+    let wit = || json!({"kind": "perm-tree", "tree": tree, "modes": modes, "family": family});
+    let Some(real) = conv::expr_to_real(tree) else { return };
+    let (text, io) = match compile_render(&real, &subject::options(false, None), "/dev") {
+        C::Ok(v) => v,
+        C::Err(e) => {
+            acc.violate(Violation::new("C08:compile-refused", format!("{}: {e}", tree.show()), wit()));
+            return;
+        }
+        C::Panic(p) => {
+            acc.violate(Violation::new(format!("C08:panic:{}", panic_site(&p)), format!("{}: {p}", tree.show()), wit()));
+            return;
+        }
+    };
+    let base = Record::distinct(1_700_000_000);
+    let recs: Vec<Record> = modes.iter().map(|m| Record { mode: 0o100000 | m, ..base.clone() }).collect();
+    let obs = match observe(&text, &io, &recs) {
+        Ok(o) => o,
+        Err(e) => {
+            acc.violate(Violation::new("C08:policy-runtime-failure", format!("{}: {e}", tree.show()), wit()));
+            return;
+        }
+    };
+    for (r, o) in recs.iter().zip(obs.records.iter()) {
+        let want = spec_eval::eval(tree, r, 0).unwrap().truth.unwrap();
+        let printed = !o.events.is_empty();
+        if printed != want {
+            acc.violate(Violation::new(
+                format!("C08:emitted-check-wrong:{family}"),
+                format!("{} on a file of mode {:04o}: policy selects = {printed}, the checks name = {want}", tree.show(), r.mode & 0o7777),
+                wit(),
+            ));
+            return;
+        }
+    }
+}
+
+fn directed_modes(masks: &[u32]) -> Vec<u32> {
+    let mut v = vec![0, 0o7777];
+    let all = masks.iter().fold(0, |a, b| a | b);
+    for &m in masks {
+        v.extend([m, !m & 0o7777, m & !masks[0], masks[0] & !m, m & masks[0]]);
+        for b in 0..12 {
+            if all & (1 << b) != 0 {
+                v.push(m ^ (1 << b));
+                v.push(1 << b);
+                v.push(all & !(1 << b));
+            }
+        }
+    }
+    v.sort();
+    v.dedup();
+    v
+}
+
+/// Negated checks for every mask, and every ordered pair of checks over 12 masks under each
+/// operator (with a test in between, negated, parenthesised).
+fn combined_checks() -> Acc {
+    let kinds = [PermKind::Equal, PermKind::AtLeast, PermKind::Any];
+    let mut acc = par_cases(4096 * 3, |i, acc| {
+        let bits = (i / 3) as u32;
+        let k = kinds[(i % 3) as usize];
+        let p = Expr::Test(Test::Perm(k, bits));
+        let modes = directed_modes(&[bits]);
+        check_tree_policy(&Expr::not(p.clone()), &modes, "negated", acc);
+        if bits % 73 == 0 || bits.count_ones() <= 1 || [0o700, 0o070, 0o007, 0o777, 0o7000, 0o7777].contains(&bits) {
+            check_tree_policy(&Expr::not(Expr::not(p.clone())), &modes, "negated", acc);
+            check_tree_policy(&Expr::not(Expr::prec(p)), &modes, "negated", acc);
+        }
+    });
+    let masks = [0u32, 0o002, 0o222, 0o200, 0o700, 0o070, 0o007, 0o111, 0o100, 0o777, 0o4000, 0o644];
+    let leaves: Vec<Expr> = masks.iter().flat_map(|m| kinds.iter().map(move |k| Expr::Test(Test::Perm(*k, *m)))).collect();
+    let n = leaves.len() as u64;
+    acc = acc.merge(par_cases(n * n, |i, acc| {
+        let (a, b) = (&leaves[(i / n) as usize], &leaves[(i % n) as usize]);
+        let (ma, mb) = match (a, b) {
+            (Expr::Test(Test::Perm(_, x)), Expr::Test(Test::Perm(_, y))) => (*x, *y),
+            _ => unreachable!(),
+        };
+        let modes = directed_modes(&[ma, mb]);
+        let name = Expr::Test(Test::True);
+        for t in [
+            Expr::and(a.clone(), b.clone()),
+            Expr::or(a.clone(), b.clone()),
+            Expr::List(Box::new(a.clone()), Box::new(b.clone())),
+            Expr::and(Expr::and(a.clone(), name.clone()), b.clone()),
+            Expr::and(a.clone(), Expr::not(b.clone())),
+            Expr::and(Expr::not(a.clone()), b.clone()),
+            Expr::not(Expr::and(a.clone(), b.clone())),
+            Expr::and(a.clone(), Expr::prec(b.clone())),
+            Expr::or(Expr::and(a.clone(), b.clone()), Expr::Test(Test::False)),
+        ] {
+            check_tree_policy(&t, &modes, "two-checks", acc);
+        }
+    }));
+    acc
+}
+
 pub fn run(ctx: &Ctx) -> i32 {
     let cl = clauses();
     let mut acc = Acc::new();
+    acc = acc.merge(combined_checks());
     // octal: all 4096 values in every admissible spelling x 3 prefixes
     acc = acc.merge(par_cases(4096 * 3, |i, acc| {
         let v = (i / 3) as u32;
@@ -355,6 +459,14 @@ pub fn run(ctx: &Ctx) -> i32 {
 }
 
 pub fn replay(w: &Value) -> Vec<Violation> {
+    if w["kind"] == "perm-tree" {
+        let mut acc = Acc::new();
+        if let Ok(tree) = serde_json::from_value::<Expr>(w["tree"].clone()) {
+            let modes: Vec<u32> = w["modes"].as_array().map(|a| a.iter().filter_map(|m| m.as_u64().map(|m| m as u32)).collect()).unwrap_or_default();
+            check_tree_policy(&tree, &modes, w["family"].as_str().unwrap_or("two-checks"), &mut acc);
+        }
+        return acc.violations.into_values().map(|(v, _)| v).collect();
+    }
     let mut acc = Acc::new();
     if w["kind"] == "perm-policy" {
         let kind = match w["check"].as_str() {
